@@ -1163,9 +1163,7 @@ int write_msa_msf(struct msa* msa,char* outfile)
         /* MFREE(linear_seq); */
         return OK;
 ERROR:
-        if(linear_seq){
-                MFREE(linear_seq);
-        }
+        /* linear_seq points into the msa, it is not ours to free */
         if(basename){
                 MFREE(basename);
         }
